@@ -280,9 +280,8 @@ func (b *Broker[T]) Stop() {
 // Wait blocks until either the context has been canceled, or all work
 // has been completed.
 func (b *Broker[T]) Wait(ctx context.Context) {
-	b.mu.Lock()
-	defer b.mu.Unlock()
-
+	// the wait group is safe for concurrent use: holding b.mu here
+	// would block Stop for as long as a Wait is in progress.
 	b.wg.Wait(ctx)
 }
 
